@@ -519,6 +519,19 @@ func (g *Gen) Next() Op {
 			ret := m.LiveSub(sname).Cfg.retention()
 			wait := rapid.SampledFrom([]time.Duration{time.Second, time.Minute, 5 * time.Minute, ret / 2, ret / 2}).Draw(t, "macro-wait")
 			g.queue = []Op{{K: OpAck, S: sname, H: hs}, {K: OpAdvance, D: int64(wait)}, {K: OpSeekSnap, S: sname, N: n}}
+			// afterwards every sibling on the topic is looked at: the round trip is
+			// this subscription's business alone
+			for _, o := range m.LiveSubs() {
+				if o.Name != sname && o.Topic == m.LiveSub(sname).Topic {
+					g.queue = append(g.queue, Op{K: OpPull, S: o.Name, Max: 1000})
+				}
+			}
+			// half of the time something is acknowledged before the snapshot too
+			// (out of publish order, so that the snapshot carries an acked list)
+			if pre := g.subset(g.handles(sname, isOut), "macro-preack"); len(pre) > 0 && len(pre) < len(g.handles(sname, isOut)) && rapid.Bool().Draw(t, "macro-pre") {
+				g.queue = append([]Op{{K: OpSnapshot, N: n, S: sname}}, g.queue...)
+				return Op{K: OpAck, S: sname, H: pre}
+			}
 			return Op{K: OpSnapshot, N: n, S: sname}
 		case OpSnapshot:
 			if len(ls) == 0 {
